@@ -14,7 +14,7 @@ CONSTANTS
   UseKinds <- MCUseCli
   UFiles <- MCUFilesU
   ExtraUsers = FALSE
-  Revs <- MCRevNo
+  Revs <- MCRevBoth
   OrderMode = "all"
 INIT Init
 NEXT Next
